@@ -49,7 +49,8 @@ ASSUMPTIONS = ['documented final-state corrections (CANCELED->DONE/FAILED, '
                'FAILED->DONE/CANCELED) are allowed, not required']
 SHARDS   = {'quick': 8, 'thorough': 16}
 REQUIRED = {'callbacks_checked': 2000, 'messages': 2000,
-            'cause_scenarios': 300, 'set:causes': 3, 'sched_updates': 1000}
+            'cause_scenarios': 300, 'set:causes': 3, 'sched_updates': 1000,
+            'concurrent_histories': 1000}
 
 _PV = rps._pilot_state_values
 _PORDER = [rps.NEW, rps.PMGR_LAUNCHING_PENDING, rps.PMGR_LAUNCHING,
@@ -207,6 +208,111 @@ def run_history(case, res):
 
     for p in pilots:
         res.see('pilot_end_states', pilots[p].state)
+
+
+# ------------------------------------------------------------------------------
+# (a') the same notifications, delivered concurrently
+#
+# In a client, pilot notifications reach PilotManager._update_pilot from more
+# than one thread (state pubsub subscriber, control pubsub subscriber for
+# `pilot_activate`).  Each thread here delivers its own in-order stream for the
+# same pilot; a yielding proxy around the manager's own `_pilots_lock` (a delay
+# at an existing suspension point: just before the lock is acquired) widens the
+# window between anything read before the lock and the update under it.
+#
+class _YieldLock(object):
+
+    def __init__(self, lock, seed):
+        self._lock = lock
+        self._seed = seed
+        self._rngs = dict()
+
+    def _rng(self):
+        import random
+        name = mt.current_thread().name
+        if name not in self._rngs:
+            self._rngs[name] = random.Random('%s/%s' % (self._seed, name))
+        return self._rngs[name]
+
+    def __enter__(self):
+        import time
+        time.sleep(self._rng().choice([0, 0, 0.0002, 0.0005, 0.002]))
+        return self._lock.__enter__()
+
+    def __exit__(self, *a):
+        return self._lock.__exit__(*a)
+
+    def acquire(self, *a, **k): return self._lock.acquire(*a, **k)
+    def release(self):          return self._lock.release()
+
+
+def gen_concurrent(rng):
+    n_threads = rng.choice([2, 2, 3])
+    streams = list()
+    for _ in range(n_threads):
+        k = rng.choice(['inorder', 'skip', 'final', 'late'])
+        if   k == 'inorder': st = _PORDER[1:rng.randint(2, 5)]
+        elif k == 'skip'   : st = [_PORDER[rng.randint(2, 4)]]
+        elif k == 'late'   : st = [_PORDER[rng.randint(1, 3)]]
+        else               : st = [_PORDER[4], rng.choice(rps.FINAL)]
+        streams.append(st)
+    return {'streams': streams, 'seed': rng.randint(0, 2 ** 30),
+            'kind': 'concurrent'}
+
+
+def run_concurrent(case, res):
+
+    pm    = make_pmgr()
+    pilot = make_pilot(pm, 'pilot.0000')
+    pm._pilots_lock = _YieldLock(pm._pilots_lock, case['seed'])
+
+    mlock = mt.Lock()
+    seen  = list()
+
+    def cb(p, state):
+        with mlock:
+            seen.append((mt.current_thread().name, state, p.state))
+
+    pm.register_callback(cb)
+    errors = list()
+
+    def deliver(states):
+        for s in states:
+            try:
+                pm._state_sub_cb(rpc.STATE_PUBSUB, {'cmd': 'update', 'arg': [
+                           {'uid': 'pilot.0000', 'type': 'pilot', 'state': s}]})
+            except ValueError:
+                pass                  # contradictory finals may raise
+            except Exception as e:
+                errors.append(repr(e))
+
+    threads = [mt.Thread(target=deliver, args=[st], name='notify.%d' % i)
+               for i, st in enumerate(case['streams'])]
+    for t in threads: t.start()
+    for t in threads: t.join(timeout=20)
+
+    res.count('concurrent_histories')
+    ctx = {'case': case, 'callbacks': seen, 'errors': errors}
+    prev = rps.NEW
+    for thread, state, _ in seen:
+        res.count('callbacks_checked')
+        if prev in rps.FINAL and state not in rps.FINAL:
+            res.violation('concurrent/final-left', '%s announced after %s '
+                          '(%s)' % (state, prev, seen), ctx)
+            break
+        if _PV[state] < _PV[prev]:
+            res.violation('concurrent/callback-regress', '%s announced after '
+                          '%s (%s)' % (state, prev, seen), ctx)
+            break
+        prev = state
+    top = max((s for st in case['streams'] for s in st), key=lambda s: _PV[s])
+    if _PV[pilot.state] < _PV[top]:
+        res.violation('concurrent/state-behind', 'Pilot.state %s after all '
+                      'notifications up to %s were delivered'
+                      % (pilot.state, top), ctx)
+    for e in errors:
+        if 'invalid state transition' not in e:
+            res.violation('concurrent/raised', e, ctx)
 
 
 # ------------------------------------------------------------------------------
@@ -374,6 +480,15 @@ def run(ctx):
         if len(res.violations) > 30:
             break
 
+    rng = ctx.rng('conc')
+    for i in range(ctx.n(4000, 100000)):
+        case = gen_concurrent(rng)
+        res.evaluations += 1
+        res.digests.add(digest(case))
+        run_concurrent(case, res)
+        if len(res.violations) > 30:
+            break
+
     rng = ctx.rng('cause')
     wd  = os.path.join(ctx.workdir or os.getcwd(), 'agent_sbox')
     os.makedirs(wd, exist_ok=True)
@@ -393,7 +508,12 @@ def run(ctx):
 def replay(case, ctx):
     res = Result()
     c = case['case']
-    if 'cause' in c:
+    if c.get('kind') == 'concurrent':
+        for _ in range(200):
+            run_concurrent(c, res)
+            if res.violations:
+                break
+    elif 'cause' in c:
         wd = os.path.join(ctx.workdir or os.getcwd(), 'agent_sbox')
         os.makedirs(wd, exist_ok=True)
         run_cause(c, res, wd)
